@@ -259,6 +259,9 @@ type c12RCase struct {
 	// client reads the attributes (GETATTR, READDIRPLUS of the parent) and looks the name up again; ACCESS goes through
 	// the handle that second LOOKUP returned. The object's owner is what it was made to be, however often it is looked at.
 	Relook bool `json:"relook,omitempty"`
+	// AuthNone: ACCESS is asked with an AUTH_NONE credential; such a caller is nobody/nobody (65534/65534, no
+	// supplementary groups) whatever the squash mode
+	AuthNone bool `json:"auth_none,omitempty"`
 }
 
 func genC12R(t *rapid.T) c12RCase {
@@ -271,6 +274,7 @@ func genC12R(t *rapid.T) c12RCase {
 	c.Squash = pick(t, "squash", "", "", "none", "root", "all", "ALL", "Root")
 	c.Conn = rapid.IntRange(0, 3).Draw(t, "conn") == 0
 	c.Relook = rapid.IntRange(0, 2).Draw(t, "relook") == 0
+	c.AuthNone = rapid.IntRange(0, 7).Draw(t, "authnone") == 0
 	return c
 }
 
@@ -347,12 +351,18 @@ func runC12R(tb stat.TB, c c12RCase) {
 			}
 		}
 		cl := drv.Client{IP: "127.0.0.1", Port: 700, Cred: nfsx.AuthSys(1, "h", c.Uid, c.Gid, c.Aux)}
+		if c.AuthNone {
+			cl.Cred = nfsx.AuthNone()
+		}
 		ar := s.nfsAs(cl, nfsx.ProcAccess, nfsx.ArgsAccess(r.Fh, c.Mask))
 		if ar.Status != nfsx.OK {
 			stat.Discard(false)
 			panic(abandon{"access failed"})
 		}
 		eu, eg, eaux, _ := refSquash(sq, c.Uid, c.Gid, c.Aux)
+		if c.AuthNone {
+			eu, eg, eaux = 65534, 65534, nil
+		}
 		want := accessTable(c.Mode, c.Dir, fu, fg, eu, eg, eaux, c.Mask, c.ReadOnly)
 		if ar.Access != want {
 			sig := "access-under-grants"
@@ -373,6 +383,9 @@ func runC12R(tb stat.TB, c c12RCase) {
 	}
 	if c.Relook {
 		ls = append(ls, "attributes_cached_and_name_looked_up_again")
+	}
+	if c.AuthNone {
+		ls = append(ls, "access_asked_with_auth_none")
 	}
 	stat.Case(c, true, ls...)
 }
